@@ -414,6 +414,9 @@ def prologue_scenarios():
 def placement_part(run, prop, tier):
     """a small placement run (arena targets, prologue family) validated under `prop`"""
     scen = prologue_scenarios()
+    if prop == "C12":
+        # every mapping the allocator creates while searching -- accepted or rejected -- is accounted for
+        scen += [dict(sc) for sc in alloc_scenarios(tier)]
     for k, sc in enumerate(scen, 1):
         sc["id"] = k
     groups, order, _ = vlib.run_harness("placement", scen, "placement_part_" + prop, timeout=3000)
@@ -430,7 +433,7 @@ def placement_part(run, prop, tier):
             evs = groups.get(sid, [])
             reached, total = tv["progress"][sid]
             sc = byid[sid]
-            run.violation("%s arena prologue=%s flavour=%s page_off=%s" % (prop, sc["prologue"], sc["flavour"], sc["off"]),
+            run.violation("%s arena prologue=%s flavour=%s page_off=%s free=%s" % (prop, sc.get("prologue"), sc.get("flavour"), sc.get("off"), sc.get("free_deltas")),
                           {"scenario": sc, "trace_rejected_at": reached, "first_unmatched_event": evs[reached] if reached < len(evs) else None,
                            "events": [e for e in evs if e["ev"] in ("Place", "Installed", "Called", "Dropped", "ChildExit", "Neighbour", "Write")]})
     run.extra["prologue_placements"] = {"executed": len(live), "accepted": len(tv["accepted"])}
